@@ -236,7 +236,7 @@ class C18Engine(Engine):
 
     def plan(self, tier):
         if tier == 'smoke':
-            return [('paths', 40, 20), ('emit', 40, 20)]
+            return [('paths', 40, 20), ('emit', 40, 20)] + self._builtin_plan(tier)
         if tier == 'thorough':
             return [('paths', 120000, 400), ('emit', 120000, 400)] + self._builtin_plan(tier)
         return [('paths', 6000, 200), ('emit', 6000, 200)] + self._builtin_plan(tier)
